@@ -371,7 +371,9 @@ pub fn run() -> i32 {
     let am_words = ["¢a", "ła.ña", "ƛa.λa", "ˈ¢a.ła", "t͡sa.ɬa"];
     let am_aliases: Vec<(Vec<&str>, bool)> = vec![(vec!["b > B"], false), (vec!["[+nasal, +long] > +N"], false), (vec!["i:[+stress] > +@{acute}"], false), (vec!["$ > *"], true), (vec!["b > B", "$ > *"], true)];
     // ... and one that does match puts its own string there, letter for letter, also when that string looks like Americanist input
-    let am_subst: Vec<(&str, &str, &str)> = vec![("a > ɬ", "a", "ɬ"), ("a > ɲɲ", "a", "ɲɲ"), ("a > t͡s", "a", "t͡s"), ("a > at͡ɬ", "a", "at͡ɬ"), ("a > A", "a", "A")];
+    let am_subst: Vec<(&str, &str, &str)> = vec![("a > ɬ", "a", "ɬ"), ("a > ɲɲ", "a", "ɲɲ"), ("a > t͡s", "a", "t͡s"), ("a > at͡ɬ", "a", "at͡ɬ"), ("a > A", "a", "A"),
+        // replacement strings are printed as given, also when they hold a character the WORD reader would normalise
+        ("a > \u{e3}", "a", "\u{e3}"), ("a > ǝ", "a", "ǝ"), ("a > ɚx", "a", "ɚx"), ("a > ℎ", "a", "ℎ"), ("a > õh", "a", "õh")];
     let mut tam = Acc::default();
     for (lines, strip) in &am_aliases { for wtxt in am_words { for rl in [RULES[0], RULES[1]] {
         tam.evals += 1;
@@ -466,12 +468,17 @@ pub fn run() -> i32 {
         ti.evals += 1;
         let other = if x == "ñ" { "ł" } else { "ñ" };
         let with_x = frame.replace('①', x).replace('②', other); let with_t = frame.replace('①', t_typed).replace('②', other);
-        let into = vec![format!("{} > {}", x, t_alias)]; let none: Vec<String> = vec![];
+        // the deromaniser string typed literally, and (second round) spelled with a code point escape
+        for escaped in [false, true] {
+        if escaped && (x.chars().count() != 1 || frame != "a①a") { continue; }
+        if escaped { ti.evals += 1; }
+        let into = vec![if escaped { format!("\\u{{{:04X}}} > {}", x.chars().next().unwrap() as u32, t_alias) } else { format!("{} > {}", x, t_alias) }]; let none: Vec<String> = vec![];
         let a1 = guarded(budget_for(14, 80) * 2, || asca::run(&[group(rl)], &[with_x.clone()], &into, &none).map_err(|e| format!("{:?}", std::mem::discriminant(&e))));
         let a2 = guarded(budget_for(14, 80) * 2, || asca::run(&[group(rl)], &[with_t.clone()], &none, &none).map_err(|e| format!("{:?}", std::mem::discriminant(&e))));
         match (a1, a2) {
             (Out::Ok(u), Out::Ok(v)) if u == v => { if u.is_ok() { ti.rewritten += 1; } else { ti.same += 1; } }
-            (u, v) => ti.viols.push(Viol { key: format!("inbuilt-deromaniser|{}|{}|{}|{}", x, t_alias, frame, rl.join(" ;; ")), desc: format!("deromaniser `{}` on `{}` (rules {:?}) gives {}, typing `{}` without it gives {}: a custom mapping is applied before the inbuilt alias of the same character", into[0], with_x, rl, match &u { Out::Ok(z) => format!("{:?}", z), o => o.crash_desc().unwrap_or_default() }, with_t, match &v { Out::Ok(z) => format!("{:?}", z), o => o.crash_desc().unwrap_or_default() }), case: json!({"kind": "amer"}) }),
+            (u, v) => ti.viols.push(Viol { key: format!("inbuilt-deromaniser|{}|{}|{}|{}|{}", x, t_alias, frame, rl.join(" ;; "), if escaped { "escaped" } else { "literal" }), desc: format!("deromaniser `{}` on `{}` (rules {:?}) gives {}, typing `{}` without it gives {}: a custom mapping is applied before the inbuilt alias of the same character", into[0], with_x, rl, match &u { Out::Ok(z) => format!("{:?}", z), o => o.crash_desc().unwrap_or_default() }, with_t, match &v { Out::Ok(z) => format!("{:?}", z), o => o.crash_desc().unwrap_or_default() }), case: json!({"kind": "amer"}) }),
+        }
         }
     } } } }
     r.boxes.push(json!({"box": "deromanisers whose string is an inbuilt alias character (37 characters: ASCII shorthands, americanist letters, characters the word reader normalises; x 4 targets x 6 frames x 2 rule lists)", "comparisons": ti.evals, "equal_ok": ti.rewritten, "equal_err": ti.same}));
